@@ -661,7 +661,7 @@ func c01ErrorSweep(c *Ctx) {
 func c01Retry(c *Ctx) {
 	p := c.P
 	c.Doc("C01.retry", "retryMessage: exactly one of returnError(msg) / p.retries <- msg on every path; the retries++ and the re-queue are guarded by retries < Retry.Max, the failure by retries >= Retry.Max")
-	c.Floor("C01.retry", 4)
+	c.Floor("C01.retry", 5)
 	fn := c.NeedFn("C01.retry", "asyncProducer.retryMessage")
 	if fn == nil {
 		return
@@ -701,6 +701,50 @@ func c01Retry(c *Ctx) {
 	}
 	c.Check(len(others) == 0, "C01.retry", fn, "only-retryMessage-requeues", nil, "asyncProducer.retries is sent on only by retryMessage (after the retries++ under the budget test)",
 		fmt.Sprintf("%v also send on asyncProducer.retries: a message re-queued without retries++ is treated as a first submission by the dispatcher — inFlight is counted twice (Close never returns), interceptors and the partitioner run again", others), nil)
+	// the retry handler never stops taking bounced messages: a broker worker bouncing a batch does not read its own
+	// input meanwhile, so a handler that waits for room on p.input without also receiving from p.retries closes a
+	// wait cycle (broker worker → retries → handler → input → dispatcher → … → broker worker)
+	if rh := c.NeedFn("C01.retry", "asyncProducer.retryHandler"); rh != nil {
+		ok := true
+		n := 0
+		var at ssa.Instruction
+		for _, b := range rh.Blocks {
+			for _, in := range b.Instrs {
+				blocking := false
+				hasRecv := false
+				switch x := in.(type) {
+				case *ssa.Select:
+					if !x.Blocking {
+						continue
+					}
+					blocking = true
+					for _, st := range x.States {
+						if st.Dir == types.RecvOnly && FieldLoad(pRetriesCh)(st.Chan) {
+							hasRecv = true
+						}
+					}
+				case *ssa.UnOp:
+					if x.Op != token.ARROW {
+						continue
+					}
+					blocking = true
+					hasRecv = FieldLoad(pRetriesCh)(x.X)
+				case *ssa.Send:
+					blocking = true
+				default:
+					continue
+				}
+				if blocking {
+					n++
+					if !hasRecv {
+						ok, at = false, in
+					}
+				}
+			}
+		}
+		c.Check(ok && n > 0, "C01.retry", rh, "handler-always-receives", at, "every blocking operation of retryHandler can receive from p.retries (the channel itself, not a variable that may be nil)",
+			"retryHandler can block (waiting for room on p.input) without being able to receive from p.retries: a broker worker that bounces a large batch blocks on p.retries while the partition worker blocks on that broker worker — a wait cycle, the batch never gets its outcomes and Close never returns", nil)
+	}
 	inc := StoreTo(BinOpOf(token.ADD, retries, ConstInt(1)), "ProducerMessage.retries")
 	for _, s := range reg.Find(inc) {
 		g, path := reg.Guarded(s, under)
